@@ -54,6 +54,7 @@ type concCall struct {
 	Err     string `json:"error,omitempty"`
 	ec      string
 	problem string
+	class   [3]string
 	used    [3]int // targets yielded, records with spare ALPN capacity, own-copy modifications
 }
 
@@ -121,10 +122,38 @@ func (c *concCase) ctl(kind string, phase int, f func(op *ctlOp)) {
 	c.ctls = append(c.ctls, op)
 }
 
+// Failure modes of a concurrent case: the server's switch (SERVFAIL / HTTP 400) or a response code outside 1..5 forced
+// on every name of the case (header code 9, extended codes 16 and 23 whose upper bits travel in the OPT record).
+const failRcode = 100 // failRcode+n: every query is answered with response code n
+
+func concFailMode(rng *mrand.Rand) int {
+	return []int{dohfake.FailServfail, dohfake.FailHTTP400, failRcode + 9, failRcode + 16, failRcode + 23}[rng.IntN(5)]
+}
+
+func failName(mode int) string {
+	if mode >= failRcode {
+		return fmt.Sprintf("rcode%d", mode-failRcode)
+	}
+	return failNames[mode]
+}
+
 func (c *concCase) setFail(phase, mode int) {
 	c.ctl("fail", phase, func(op *ctlOp) {
-		op.Fail, op.fail = failNames[mode], mode != dohfake.FailNone
-		c.srv.SetFail(mode)
+		op.Fail, op.fail = failName(mode), mode != dohfake.FailNone
+		switch {
+		case mode >= failRcode:
+			c.srv.Update(func(z *dohfake.Zone) {
+				for _, n := range c.names {
+					z.Rcode[dohfake.Key{Name: n}] = mode - failRcode
+				}
+			})
+			c.counts["conc_failure_windows_rcode_outside_1_5"]++
+		case mode == dohfake.FailNone:
+			c.srv.Update(func(z *dohfake.Zone) { clear(z.Rcode) })
+			c.srv.SetFail(mode)
+		default:
+			c.srv.SetFail(mode)
+		}
 	})
 	if mode != dohfake.FailNone {
 		c.anyFailure = true
@@ -154,7 +183,11 @@ func (e *env) concCase(work string, idx int, rng *mrand.Rand) {
 		for k := range sets {
 			zero := rng.IntN(4) == 0
 			base := pos[rng.IntN(len(pos))]
-			sets[k] = genSet(rng, k, 1+rng.IntN(3), func() uint32 {
+			n := 1 + rng.IntN(3)
+			if k == kHTTPS {
+				n = 2 + rng.IntN(3) // 2..4 records, listed out of priority order: Resolve has to sort what it got from the (shared) cache entry
+			}
+			sets[k] = genSet(rng, k, n, func() uint32 {
 				switch {
 				case zero:
 					return 0
@@ -217,7 +250,7 @@ func (c *concCase) runPhase(p int, kind string, rng *mrand.Rand) bool {
 	ph := &phaseInfo{Kind: kind, Clock: c.clock.Secs(), Queries: map[string][3]int{}}
 	c.phases = append(c.phases, ph)
 	if kind == pkFailing {
-		c.setFail(p, dohfake.FailServfail+rng.IntN(2))
+		c.setFail(p, concFailMode(rng))
 	}
 	srv.ResetLog()
 	for len(srv.Arrivals()) > 0 {
@@ -267,7 +300,7 @@ func (c *concCase) runPhase(p int, kind string, rng *mrand.Rand) bool {
 					rec.Vers = [3]int{verBad, verBad, verBad}
 				} else {
 					// the RRSet shapes never change in a concurrent case; whether the version ever existed is judged later
-					rec.Vers, rec.problem = observe(name, res, func(v int) (string, *[3]rrset) {
+					rec.Vers, rec.problem, rec.class = observe(name, res, func(v int) (string, *[3]rrset) {
 						if v < 0 {
 							return name, nil
 						}
@@ -306,7 +339,7 @@ func (c *concCase) runPhase(p int, kind string, rng *mrand.Rand) bool {
 			c.changeZone(p)
 			c.counts["conc_midphase_zone_changes"]++
 		case pkHeldBlip:
-			c.setFail(p, dohfake.FailServfail+rng.IntN(2))
+			c.setFail(p, concFailMode(rng))
 			ph.dirty = true
 		}
 		ph.Release = c.seq.Add(1)
@@ -498,7 +531,7 @@ func (c *concCase) judge() {
 			for k, v := range call.Vers {
 				switch v {
 				case verBad:
-					c.viol("wrong-data:"+qnames[k]+":not-one-rrset", map[string]any{"call": call}, "Resolve(%s): %s", call.Name, call.problem)
+					c.viol("wrong-data:"+qnames[k]+":"+call.class[k], map[string]any{"call": call}, "Resolve(%s) [stamps %d..%d]: %s", call.Name, call.Call, call.Ret, call.problem)
 					bad = true
 				case verEmpty: // every RRSet of a concurrent case has records
 					sig := "conc:empty-" + qnames[k] + "-answer-returned"
